@@ -1,7 +1,11 @@
 #!/bin/sh
 # Build the whole harness once, offline, from files on disk (path deps on /repo).
+# One package at a time: each check later runs `cargo build -p <crate>` and must find the same
+# feature resolution already built.
 set -e
 cd /verif/harness
 export CARGO_NET_OFFLINE=true
 unset RUSTFLAGS CARGO_TARGET_DIR
-cargo build --workspace 2>&1 | tail -3
+for p in l1base l1rec l1conn l2; do
+  cargo build -q -p $p 2>&1 | tail -3
+done
